@@ -47,18 +47,18 @@ def _run_probes(prefix):
     return expect, res
 
 
-def run_probe_bins(prefix):
+def run_probe_bins(prefix, release=False):
     from core import point_at_repo
     point_at_repo()
-    return _run_probe_bins(prefix)
+    return _run_probe_bins(prefix, release)
 
 
-def _run_probe_bins(prefix):
+def _run_probe_bins(prefix, release=False):
     """`cargo build` the probe programs starting with prefix; run those expected to run.
     returns (expect, {name: {'compiled', 'codes', 'messages', 'ran', 'rc', 'stdout'}})"""
     expect = json.load(open(os.path.join(PROBES, 'expect.json')))
     names = sorted(n for n in expect if n.startswith(prefix))
-    cmd = ['cargo', 'build', '--offline', '--keep-going', '--message-format=json']
+    cmd = ['cargo', 'build', '--offline', '--keep-going', '--message-format=json'] + (['--release'] if release else [])
     for n in names:
         cmd += ['--bin', n]
     p = subprocess.run(cmd, cwd=PROBES, capture_output=True, text=True, env=env_offline(), timeout=3600)
